@@ -782,17 +782,21 @@ def _group_func_wrap(
     - Supports parallel processing for chunked data.
     - Preserves original dtype for datetime and timedelta types.
     """
+    # pandas inputs are about to lose their index (and a slice would cut keys and values
+    # to a common length): compare them while we can
+    is_bool_mask = (
+        mask is not None
+        and not isinstance(mask, slice)
+        and pd.api.types.is_bool_dtype(mask)
+    )
+    check_data_inputs_aligned()(lambda group_key, values, mask: None)(
+        group_key, values, mask if is_bool_mask else None
+    )
     if isinstance(mask, slice):
         # slicing creates views at no cost
         values = values[mask]
         group_key = group_key[mask]
         mask = None
-    else:
-        # pandas inputs are about to lose their index: compare them while we can
-        is_bool_mask = mask is not None and pd.api.types.is_bool_dtype(mask)
-        check_data_inputs_aligned()(lambda group_key, values, mask: None)(
-            group_key, values, mask if is_bool_mask else None
-        )
 
     group_key = _val_to_numpy(group_key)
     values = _val_to_numpy(values, as_list=True)
